@@ -24,6 +24,19 @@ Theorem C20_failed_startup_no_api : forall tr s, run init tr = Some s -> In Star
 Proof. exact failed_startup_no_api. Qed.
 Print Assumptions C20_failed_startup_no_api.
 
+(* run_activity works in rounds (retries).  ANY final failure of ANY startup handler in ANY round: StartupOk and Flag
+   can no longer happen, the flags stay down, and there is no API request anywhere in the run — whatever the other
+   handlers do in later rounds (outcomes of all rounds are merged: `outcomes |= current_outcomes`). *)
+Theorem C20_startup_handler_failure_no_api : forall tr s h, run init tr = Some s -> In (StartupHandler h HPerm) tr ->
+  started s = false /\ ready s = false /\ (forall t, ~ In (Api t) tr) /\
+  (forall pre post, tr = pre ++ StartupHandler h HPerm :: post -> ~ In StartupOk post /\ ~ In Flag post).
+Proof. exact startup_handler_failure_no_api. Qed.
+Print Assumptions C20_startup_handler_failure_no_api.
+
+Example C20_mixed_rounds_startup_failure : returned_with tr_mixed_rounds (RErr EStartup) = true.
+Proof. exact mixed_rounds_accepted. Qed.
+Print Assumptions C20_mixed_rounds_startup_failure.
+
 (* ... and such a run exists and returns the startup failure (non-vacuity + "Return carries the failure"). *)
 Example C20_failed_startup_returns_failure : returned_with tr_failed_startup (RErr EStartup) = true.
 Proof. exact failed_startup_accepted. Qed.
